@@ -15,7 +15,7 @@ import (
 // Domain "loc": histories of Location operations over several locations
 // (indexed and linear state, MemStorage, SimpleLocationProvider).
 
-var locProfiles = []string{"search", "dispatch", "lifecycle", "cascade", "acl", "capacity", "forest", "expiry", "query", "events"}
+var locProfiles = []string{"search", "dispatch", "lifecycle", "cascade", "acl", "capacity", "forest", "expiry", "query", "events", "durable"}
 
 func init() {
 	register("loc", &Domain{Gen: genLoc, Exec: execLoc})
@@ -94,7 +94,7 @@ func (lg *locGen) op() map[string]interface{} {
 		//            addfact addrule remfact remrule get getrule search event enable clear setparents getparents size reload special
 		"search":    {32, 3, 10, 1, 12, 1, 36, 0, 0, 1, 0, 0, 1, 3, 0, 0, 0},
 		"dispatch":  {6, 30, 2, 8, 2, 3, 2, 36, 4, 1, 2, 0, 0, 3, 0, 0, 0},
-		"lifecycle": {6, 22, 2, 10, 2, 2, 2, 30, 16, 1, 0, 0, 0, 6, 3, 0, 0},
+		"lifecycle": {6, 22, 2, 10, 2, 2, 2, 30, 16, 1, 0, 0, 5, 6, 3, 0, 0},
 		"cascade":   {30, 8, 15, 6, 6, 0, 12, 6, 6, 1, 0, 0, 4, 4, 0, 0, 0},
 		"acl":       {12, 8, 6, 4, 8, 4, 10, 8, 4, 2, 4, 4, 4, 2, 20, 0, 0},
 		"capacity":  {40, 14, 14, 4, 2, 0, 4, 2, 6, 2, 0, 0, 8, 2, 0, 0, 0},
@@ -102,6 +102,7 @@ func (lg *locGen) op() map[string]interface{} {
 		"expiry":    {25, 12, 3, 2, 14, 2, 14, 12, 2, 0, 0, 0, 2, 8, 0, 0, 0},
 		"query":     {34, 2, 6, 0, 2, 0, 6, 0, 0, 1, 0, 0, 0, 3, 1, 40, 0},
 		//            (addrule weight is used for rules with conditions/actions; last column: process)
+		"durable":   {30, 12, 10, 5, 6, 2, 10, 5, 4, 1, 2, 1, 2, 9, 0, 0, 0},
 		"events":    {22, 26, 4, 4, 1, 1, 2, 2, 5, 1, 0, 0, 0, 3, 0, 0, 40},
 	}[lg.profile]
 	total := 0
@@ -119,7 +120,8 @@ func (lg *locGen) op() map[string]interface{} {
 	switch k {
 	case 0:
 		o["op"] = "addfact"
-		if r.Intn(5) != 0 {
+		if r.Intn(5) != 0 || lg.profile == "durable" {
+			// (durable: a generated id of an add that fails at the storage is not reported back)
 			o["id"] = id
 		}
 		var f map[string]interface{}
@@ -149,7 +151,7 @@ func (lg *locGen) op() map[string]interface{} {
 		o["fact"] = f
 	case 1:
 		o["op"] = "addrule"
-		if r.Intn(8) != 0 {
+		if r.Intn(8) != 0 || lg.profile == "durable" {
 			o["id"] = id
 		}
 		rule := rulePat(lg.pattern(lg.events[r.Intn(len(lg.events))]))
@@ -328,6 +330,12 @@ func genLocCase(r *rand.Rand, prof string) Case {
 		if prof == "capacity" {
 			l["max"] = 2 + r.Intn(4)
 		}
+		if prof == "durable" {
+			l["storage"] = pick(r, "mem", "bolt").(string)
+			if r.Intn(3) != 0 {
+				l["fail"] = r.Intn(30)
+			}
+		}
 		locs = append(locs, l)
 	}
 	for k := 0; k < 4; k++ {
@@ -346,7 +354,11 @@ func genLocCase(r *rand.Rand, prof string) Case {
 	for k := 0; k < nops; k++ {
 		ops = append(ops, lg.op())
 	}
-	return Case{"profile": prof, "locs": locs, "ops": ops}
+	c := Case{"profile": prof, "locs": locs, "ops": ops}
+	if prof == "durable" && r.Intn(2) == 0 {
+		c["crash"] = true // the process "dies" at the failing storage call: reload right after it
+	}
+	return c
 }
 
 // ---------------------------------------------------------------- executor
@@ -386,6 +398,8 @@ func errRes(err error) map[string]interface{} {
 
 type locWorld struct {
 	ctx      *core.Context
+	fails    map[string]*failStorage
+	cleanup  []func()
 	stores   map[string]core.Storage
 	kinds    map[string]string
 	maxes    map[string]int
@@ -397,10 +411,19 @@ func (w *locWorld) open(name string) error {
 	ctx.Verbosity = core.NOTHING
 	var state core.State
 	var err error
+	var store core.Storage = w.stores[name]
+	if fs := w.fails[name]; fs != nil {
+		if fs.armed {
+			// a reloaded instance works on the bare storage (no injected failure)
+			delete(w.fails, name)
+		} else {
+			store = fs
+		}
+	}
 	if w.kinds[name] == "linear" {
-		state, err = core.NewLinearState(ctx, name, w.stores[name])
+		state, err = core.NewLinearState(ctx, name, store)
 	} else {
-		state, err = core.NewIndexedState(ctx, name, w.stores[name])
+		state, err = core.NewIndexedState(ctx, name, store)
 	}
 	if err != nil {
 		return err
@@ -446,12 +469,36 @@ func bssJSON(bss []core.Bindings) []interface{} {
 
 func execLocCase(c Case) {
 	w := &locWorld{stores: map[string]core.Storage{}, kinds: map[string]string{}, maxes: map[string]int{},
+		fails:    map[string]*failStorage{},
 		provider: core.NewSimpleLocationProvider(map[string]*core.Location{})}
+	defer func() {
+		for _, f := range w.cleanup {
+			f()
+		}
+	}()
+	// drop synthetic ops of an earlier execution (replay / shrinking)
+	{
+		var kept []interface{}
+		for _, oi := range list(c["ops"]) {
+			if !boolean(obj(oi)["synthetic"]) {
+				kept = append(kept, oi)
+			}
+		}
+		c["ops"] = kept
+	}
 	for _, li := range list(c["locs"]) {
 		l := obj(li)
 		name := str(l["name"])
-		st, _ := core.NewMemStorage(nil)
+		st, cleanup, err := newStorage(str(l["storage"]))
+		if err != nil {
+			c["setup_error"] = err.Error()
+			return
+		}
+		w.cleanup = append(w.cleanup, cleanup)
 		w.stores[name] = st
+		if v, ok := l["fail"]; ok {
+			w.fails[name] = &failStorage{Storage: st, n: int(num(v))}
+		}
 		w.kinds[name] = str(l["kind"])
 		if v, ok := l["max"]; ok {
 			w.maxes[name] = int(num(v))
@@ -460,14 +507,35 @@ func execLocCase(c Case) {
 			c["setup_error"] = err.Error()
 			return
 		}
+		if fs := w.fails[name]; fs != nil {
+			fs.mu.Lock()
+			fs.armed = true
+			fs.mu.Unlock()
+		}
 	}
+	var done []interface{}
 	for _, oi := range list(c["ops"]) {
 		o := obj(oi)
 		if d := num(o["sleep"]); d > 0 {
 			time.Sleep(time.Duration(d) * time.Second)
 		}
 		execLocOp(w, o)
+		done = append(done, o)
+		fired := false
+		if fs := w.fails[str(o["loc"])]; fs != nil && fs.takeFired() {
+			fired = true
+			if r := obj(o["res"]); r != nil {
+				r["fired"] = true // the injected storage failure hit this operation
+			}
+		}
+		if fired && boolean(c["crash"]) {
+			// crash at the failing storage call: memory is lost, the location restarts from storage
+			ro := map[string]interface{}{"loc": o["loc"], "op": "reload", "synthetic": true}
+			execLocOp(w, ro)
+			done = append(done, ro)
+		}
 	}
+	c["ops"] = done
 }
 
 func execLocOp(w *locWorld, o map[string]interface{}) {
@@ -611,7 +679,15 @@ func execLocOp(w *locWorld, o map[string]interface{}) {
 		} else {
 			found := []interface{}{}
 			for _, sr := range srs.Found {
-				found = append(found, map[string]interface{}{"id": sr.Id, "bss": bssJSON(sr.Bindingss), "loc": ownerOf(w, name, sr.Id, boolean(o["inherited"]))})
+				fe := map[string]interface{}{"id": sr.Id, "bss": bssJSON(sr.Bindingss), "loc": ownerOf(w, name, sr.Id, boolean(o["inherited"]))}
+				if !boolean(o["inherited"]) {
+					var parsed interface{}
+					if json.Unmarshal([]byte(sr.Js), &parsed) != nil {
+						parsed = "<corrupt>"
+					}
+					fe["fact"] = parsed
+				}
+				found = append(found, fe)
 			}
 			res = map[string]interface{}{"ok": true, "found": found}
 		}
